@@ -17,7 +17,8 @@ def expected_obj(exp, by_dt="<i8"):
     if exp is None:
         return None
     if "range" in exp:
-        return pd.RangeIndex(exp["range"])
+        r = exp["range"]
+        return pd.RangeIndex(*r) if isinstance(r, list) else pd.RangeIndex(r)
     if "bins" in exp:
         edges = [unnum(x) for x in exp["bins"]]
         if exp.get("as") == "interval":
